@@ -610,6 +610,44 @@ func (e *Env) applyDecorationsSinks() {
 	}
 	e.Run.Check("R-SINK", "applyDecorations: each comment goes to exactly one sink, at the cursor, then the cursor advances by its length", pos, orderOK,
 		"both sinks take the comment at r.cursor; the advance by len(d) must come after them")
+	// the join is decided by a counter of the line breaks since the last comment: it is set to zero
+	// with every comment and incremented with every line break (a counter that only grows splits
+	// the group after its second comment)
+	if nJoin > 0 {
+		var counter types.Object
+		ast.Inspect(loop.Body, func(n ast.Node) bool {
+			if be, ok := n.(*ast.BinaryExpr); ok && (be.Op == token.LEQ || be.Op == token.LSS) {
+				if id, ok := ast.Unparen(be.X).(*ast.Ident); ok {
+					if b, ok := info.TypeOf(id).Underlying().(*types.Basic); ok && b.Info()&types.IsInteger != 0 && info.Uses[id] != nil && !(loop.Body.Pos() <= info.Uses[id].Pos() && info.Uses[id].Pos() <= loop.Body.End()) {
+						counter = info.Uses[id]
+					}
+				}
+			}
+			return true
+		})
+		if counter != nil {
+			reset, inc := false, false
+			ast.Inspect(loop.Body, func(n ast.Node) bool {
+				switch v := n.(type) {
+				case *ast.AssignStmt:
+					if len(v.Lhs) == 1 && len(v.Rhs) == 1 {
+						if id, ok := v.Lhs[0].(*ast.Ident); ok && info.Uses[id] == counter {
+							if tv, ok := info.Types[v.Rhs[0]]; ok && tv.Value != nil && tv.Value.String() == "0" {
+								reset = true
+							}
+						}
+					}
+				case *ast.IncDecStmt:
+					if id, ok := v.X.(*ast.Ident); ok && info.Uses[id] == counter && v.Tok == token.INC {
+						inc = true
+					}
+				}
+				return true
+			})
+			e.Run.Check("R-SINK", "applyDecorations: the line breaks since the last comment are counted from zero after every comment", pos, reset && inc,
+				fmt.Sprintf("the counter %s that decides whether a comment joins the group before it is reset to 0 in the loop: %v, incremented: %v — without the reset the third comment of a run starts a group of its own", counter.Name(), reset, inc))
+		}
+	}
 	e.Run.Check("R-SINK", "applyDecorations: comments that follow each other without an empty line share a comment group", pos, nJoin > 0,
 		"every comment is appended to the file's comment list as a group of its own: go/parser puts comments that follow each other without an empty line into one group, and go/printer decides per group whether the comments are printed before the next token — `for k,` / `/* int */ // the value` / `v := range m` is printed with the first comment in front of the comma and no longer parses")
 	_, _ = isComment, toField
